@@ -5,24 +5,12 @@ Import ListNotations.
 
 Lemma read_2_checked : forall a, let d := sys_n skel Reader 2 a in scheck d (n_inv Reader d) = true.
 Proof. intros []; vm_cast_no_check (eq_refl true). Qed.
+(* F4 repaired: with several readers data is never left unclaimed *)
+Lemma read_2_full_checked : forall a, let d := sys_n skel Reader 2 a in scheck d (fixed_n_inv d) = true.
+Proof. intros []; vm_cast_no_check (eq_refl true). Qed.
 Lemma write_2_checked : forall a, let d := sys_n skel Writer 2 a in scheck d (n_inv Writer d) = true.
 Proof. intros []; vm_cast_no_check (eq_refl true). Qed.
 Lemma accept_2_checked : forall a, let d := sys_n skel Accepter 2 a in scheck d (n_inv Accepter d) = true.
-Proof. intros []; vm_cast_no_check (eq_refl true). Qed.
-
-(* F4: two parked readers, one datagram with two messages, one token: the first reader takes a
-   message and returns; PeekSize() > 0, the second reader is parked, no token, nobody in flight *)
-Definition f4_labels : list label :=
-  [LThread 0; LThread 0; LThread 0; LThread 1; LThread 1; LThread 1; LInput 2 false; LThread 0; LThread 0].
-Lemma read_multi_found :
-  forall a, let d := sys_n skel Reader 2 a in found_ok d (inv_multi_peek d) f4_labels = true.
-Proof. intros []; vm_cast_no_check (eq_refl true). Qed.
-
-(* the same defect with ONE message and a short read buffer: the remainder stays in bufptr *)
-Definition f4_short_labels : list label :=
-  [LThread 0; LThread 0; LThread 0; LThread 1; LThread 1; LThread 1; LInput 1 false; LThread 0; LThread 0].
-Lemma read_multi_short_found :
-  forall a, let d := sys_n skel Reader 2 a in found_ok d (inv_multi d) f4_short_labels = true.
 Proof. intros []; vm_cast_no_check (eq_refl true). Qed.
 
 (* writers: the literal multi-waiter invariant fails between two update() ticks ... *)
@@ -30,18 +18,9 @@ Definition multi_writer_gap_labels : list label :=
   [LThread 0; LThread 0; LThread 0; LThread 0; LThread 1; LThread 1; LThread 1; LThread 1;
    LInput 0 true; LThread 0; LThread 0; LThread 0].
 
-(* two callers parked under a deadline; the deadline is replaced by a later one: one token, one
-   caller re-arms, the other keeps the timer of the old deadline and returns a timeout while
-   the stored deadline is still in the future and no wake-up is pending for it *)
-Definition extend_read_labels : list label :=
-  [LThread 0; LThread 0; LThread 0; LThread 1; LThread 1; LThread 1; LSetRD DFuture; LThread 0;
-   LTickStale 1; LFire 1].
-Definition extend_write_labels : list label :=
-  [LThread 0; LThread 0; LThread 0; LThread 1; LThread 1; LThread 1; LSetWD DFuture; LThread 0;
-   LTickStale 1; LFire 1].
-Lemma read_extend_found :
-  forall a, let d := sys_extend_n skel Reader 2 a in found_ok d (inv_no_early_quiet d) extend_read_labels = true.
+(* two callers parked under a deadline that is then extended: nobody times out before the
+   stored deadline any more *)
+Lemma read_extend_checked : forall a, let d := sys_extend_n skel Reader 2 a in scheck d (strong_extend_inv d) = true.
 Proof. intros []; vm_cast_no_check (eq_refl true). Qed.
-Lemma write_extend_found :
-  forall a, let d := sys_extend_n skel Writer 2 a in found_ok d (inv_no_early_quiet d) extend_write_labels = true.
+Lemma write_extend_checked : forall a, let d := sys_extend_n skel Writer 2 a in scheck d (strong_extend_inv d) = true.
 Proof. intros []; vm_cast_no_check (eq_refl true). Qed.
